@@ -141,6 +141,9 @@ type Tree map[string]string
 // fixed past mtime PastTime.
 var PastTime = time.Date(2020, 1, 2, 3, 4, 5, 0, time.UTC)
 
+// SymlinkPrefix marks a tree entry that is a symbolic link: the rest of the value is the link target.
+const SymlinkPrefix = "\x00symlink:"
+
 func (t Tree) Write(root string) error {
 	if err := os.MkdirAll(root, 0o755); err != nil {
 		return err
@@ -160,6 +163,12 @@ func (t Tree) Write(root string) error {
 		}
 		if err := os.MkdirAll(filepath.Dir(full), 0o755); err != nil {
 			return err
+		}
+		if target, ok := strings.CutPrefix(t[p], SymlinkPrefix); ok {
+			if err := os.Symlink(target, full); err != nil {
+				return err
+			}
+			continue
 		}
 		if err := os.WriteFile(full, []byte(t[p]), 0o644); err != nil {
 			return err
